@@ -6,6 +6,6 @@ P=$D; [ -d "$D" ] && P=$D/patch.diff
 git -C $WT checkout -q -- . ; git -C $WT checkout -q --detach $(git -C /repo rev-parse HEAD)
 git -C $WT apply $P || { echo "cannot apply $P"; exit 3; }
 for c in "$@"; do
-  ( cd /verif && VERIF_OUT=/tmp/verif_out VERIF_REPO=$WT VERIF_TIME_CAP=${CAP:-900} ./check $c --tier ${TIER:-quick} > /tmp/wtseed_$c.out 2>&1; echo "$D check $c exit=$? keys: $(grep -A1 '^VIOLATION' /tmp/wtseed_$c.out | grep 'key=' | head -4 | sed 's/occurrences=//' | tr '\n' ' ')" )
+  ( cd /verif && VERIF_OUT=/tmp/verif_out VERIF_REPO=$WT VERIF_TIME_CAP=${CAP:-900} ./check $c --tier ${TIER:-quick} > /tmp/wtseed_$(basename $WT)_$c.out 2>&1; echo "$D check $c exit=$? keys: $(grep -A1 '^VIOLATION' /tmp/wtseed_$(basename $WT)_$c.out | grep 'key=' | head -4 | sed 's/occurrences=//' | tr '\n' ' ')" )
 done
 git -C $WT checkout -q -- .
